@@ -51,6 +51,11 @@ def configs(tier):
                   label="2clients-same-id"))
     # application-chosen invoke IDs (second submit must be refused, third goes to another peer)
     C.append(MCfg(one, [2, 3], [(0, 2, 5), (0, 2, 5), (0, 3, 5)], inj=1, dup=0, label="app-chosen-ids"))
+    # the application re-uses its chosen invoke ID for the next request, sent from inside the confirmation of the previous
+    # one, while a request to a slow second server (started later) is still outstanding
+    C.append(MCfg(one, [2, 3], [(0, 2, 5), (0, 3, 9), (0, 2, 5, "cb")], inj=0, dup=1, deliver_width=2, label="app-chosen-id-reused-in-callback"))
+    C.append(MCfg(one, [2, 3], [(0, 2, None), (0, 3, None), (0, 2, None, "cb"), (0, 2, None, "cb")], inj=0, dup=0, deliver_width=2,
+                  label="next-request-from-callback"))
     # retransmission by timeout while the server application still holds the original
     C.append(MCfg(one, [2], [(0, 2, None), (0, 2, None)], inj=0, dup=1, timers=1, label="2req-timers"))
     if tier != "quick":
